@@ -52,6 +52,7 @@ class Ctx:
         _a.NO_SUMMARY.update(v for v in vars(_n).values() if isinstance(v, str))
         _a.NO_SUMMARY.update(x for v in vars(_n).values() if isinstance(v, tuple) for x in v if isinstance(x, str))
         FnA.resolver = lambda name, self=self: (self.fa(self.crate.body(name)) if self.crate.body(name) is not None and self.crate.body(name).kind in ("Fn", "AssocFn") else None)
+        FnA.local_adts = frozenset(crate.adts.keys())
         self.insts = []
         self.t0 = time.time()
 
@@ -889,6 +890,46 @@ def stride_of(term):
         if is_agg(it) and it[1].split("::")[-1] == "Range":
             return agg_field(it, "start"), ("lit", 1)
     return None
+
+
+def guarded_values(fa, operand):
+    """The alternative values an operand can hold, each with the block that assigns it:
+    [(value term, defining block)].  Follows copies / references / field projections back to the
+    local that is assigned on several paths (`let x = if c { a } else { b }`, a tuple built in each
+    arm, the result of a spliced helper) — without relying on variable names.  The caller asks
+    which conditions dominate each defining block."""
+    from .analysis import project_field
+    p = op_place(operand)
+    fields = []
+    for _ in range(12):
+        if p is None:
+            return []
+        if fa.upvar_name(p) is not None:
+            t = fa.origin_place(p, 0, 0)   # a captured variable (a parameter of the async fn)
+            for f in fields:
+                t = project_field(t, f)
+            return [(t, None)]
+        fields = [e["n"] for e in p["p"] if isinstance(e, dict) and "f" in e] + fields
+        ds = [d for d in fa.body.defs.get(p["l"], []) if not d[3]["p"] and d[1] in fa.succ]
+        if not ds:
+            t = fa.origin_place({"l": p["l"], "p": []}, 0, 0)   # a parameter / captured variable
+            for f in fields:
+                t = project_field(t, f)
+            return [(t, None)]
+        if len(ds) == 1 and ds[0][0] == "assign" and ds[0][4]["k"] in ("ref", "copyderef"):
+            p = ds[0][4]["place"]
+            continue
+        if len(ds) == 1 and ds[0][0] == "assign" and ds[0][4]["k"] in ("use", "cast") and op_place(ds[0][4]["op"]) is not None:
+            p = op_place(ds[0][4]["op"])
+            continue
+        out = []
+        for d in ds:
+            t = fa.origin_rvalue(d[4], d[1], d[2]) if d[0] == "assign" else (fa.origin_call(d[1], d[4]) if d[0] == "call" else ("unknown",))
+            for f in fields:
+                t = project_field(t, f)
+            out.append((t, d[1]))
+        return out
+    return []
 
 
 def named_local(fa, operand, bi, pos):
